@@ -5,6 +5,8 @@ from c11 import norinori as _nn
 NAME = "putteria"
 MODULE = "cspuz.puzzle.putteria"
 FUNC = "solve_putteria"
+TIER1 = ("Putteria", "solve_putteria_model")
+tier1_problems = _nn.tier1_problems
 
 
 def call(mod, pb):
